@@ -217,11 +217,17 @@ class BinaryCarver(BaseCarver):
         dict[str, float]
             Cramér's V and Tschuprow's as a dict.
         """
+        # modalities and target classes without observation do not contribute to the statistic
+        # (chi2_contingency raises on the zero expected frequencies they induce)
+        xtab = xtab.loc[xtab.sum(axis=1) > 0, xtab.sum(axis=0) > 0]
+
         # number of values taken by the features
         n_mod_x = xtab.shape[0]
 
-        # Chi2 statistic
-        chi2 = chi2_contingency(xtab)[0]
+        # Chi2 statistic (no association for a degenerate crosstab)
+        chi2 = 0.0
+        if min(xtab.shape) > 1:
+            chi2 = chi2_contingency(xtab)[0]
 
         # Cramér's V
         cramerv = sqrt(chi2 / n_obs)
